@@ -3,6 +3,7 @@ from .. import roles
 from ..cfg import reachable
 from ..facts import KIND, callee
 from ..rules import cover
+from ..symex import PathLimit, SymEx, show
 
 LEVEL = "other"
 EXPLANATION = (
@@ -86,6 +87,51 @@ def rule_children(ck, facts):
                 else:
                     ck.bad(R, key, "%s: the arm for Expr::%s never reads payload field %d (%s): sub-expressions stored there are not visited by this pass, so names inside them are resolved/desugared differently from the rest of the program" % (short, v, i, fty[:60]), f.where())
     ck.floor(R, "expression_bearing_children_checked", n, 120)
+
+
+def rule_optional_children(ck, facts):
+    """`name [: type] [= default]`: the lowering walks the optional children of a node with a cursor"""
+    R = "C16.children"
+    lang = facts.crate(roles.LANG)
+    n = 0
+    for f in lang.fns:
+        if "::parser::lower::" not in f.path or f.kind == "promoted" or "::test" in f.path:
+            continue
+        # functions that test the syntax kind of an indexed child against constants at least twice
+        tests = [t for _, t in f.calls() if (callee(t) or "").split("::")[-1] in ("eq", "ne") and "SyntaxKind" in repr(t[4])]
+        if len(tests) < 2:
+            continue
+        sx = SymEx(f, max_paths=600, max_steps=60000, facts=facts, track_index=True)
+        try:
+            paths = sx.run(0)
+        except PathLimit:
+            paths = sx.paths
+        stale = None
+        m = 0
+        for p in paths:
+            known = {}  # tested expression (with its index value) -> constant it is known to equal on this path
+            for ce, v, pos in p.conds:
+                if not (ce[0] == "call" and ce[1].split("::")[-1] == "eq" and len(ce[2]) == 2):
+                    continue
+                lhs, rhs = ce[2]
+                if "idx" not in repr(lhs) or "SyntaxKind" not in repr(rhs):
+                    continue
+                truth = (pos and v not in (0, (0,))) or ((not pos) and tuple(v if isinstance(v, tuple) else (v,)) == (0,))
+                m += 1
+                k = repr(lhs)
+                if k in known and known[k] != repr(rhs) and stale is None:
+                    stale = (lhs, known[k], rhs)
+                if truth:
+                    known[k] = repr(rhs)
+        if not m:
+            continue
+        n += 1
+        key = "optional-children|%s" % (f.root.split("::")[-1] if f.kind == "closure" else f.short.split("::")[-1])
+        if stale:
+            ck.bad(R, key, "%s: a child that was just recognised (and used) as %s is tested again for %s without the cursor having moved: when both optional parts are written the second one is looked for in the place of the first and is dropped (`x: float = 1.0` loses its default, `x = 1.0` keeps it) — an agreeing annotation changes the program" % (f.short, stale[1][-44:], repr(stale[2])[-44:]), f.where())
+        else:
+            ck.ok(R, key, {"fn": f.short})
+    ck.floor(R, "cursor_walks_over_optional_children", n, 1)
 
 
 def rule_record_layout(ck, facts):
@@ -195,11 +241,32 @@ def rule_name_spelling(ck, facts):
     ck.floor(R, "staging_functions_reading_names", m, 3)
 
 
+_PM = {}
+
+
+def _consumes(facts, f):
+    """does f call one of the parser's consuming primitives (found by role in rules/cursor.py)?"""
+    from ..rules.cursor import ParserModel
+
+    pm = _PM.get(id(facts))
+    if pm is None:
+        pm = _PM[id(facts)] = ParserModel(facts)
+    prim = set(pm.expecters) | set(pm.wrappers) | ({pm.bump.path} if pm.bump is not None else set())
+    return any((callee(t) or "") in prim for _, t in f.calls())
+
+
 def rule_linebreak_uniform(ck, facts):
     R = "C16.linebreak"
     ck.rule(R, "whether an expression continues after a line break is decided from the next token only through the infix-precedence table: no parser method that feeds that decision singles out a token kind that the table lists as an infix operator (a binary `-` at the start of a line inside brackets must continue the expression like `+` does)")
     lang = facts.crate(roles.LANG)
-    prec = [f for f in lang.fns if f.short.endswith("cst_parser::Parser::<'a>::get_infix_precedence") or f.short.endswith("::get_infix_precedence")]
+    # the infix-precedence table by role: the parser method that dispatches on TokenKind over the operator kinds and
+    # answers with an optional numeric precedence (`Option<usize>` / `Option<u8>` ...)
+    prec = []
+    for g in lang.fns:
+        if "::parser::cst_parser::" in g.path and g.kind == "assoc" and "Option<u" in g.local_ty(0):
+            cvp = cover.coverage(facts, g, TOKENKIND)
+            if cvp is not None and cvp.primary is not None and {"OpSum", "OpProduct"} <= set(cvp.primary_handled()):
+                prec.append(g)
     ck.require(R, len(prec) >= 1, "anchor|get_infix_precedence", "infix precedence table not found")
     if not prec:
         return
@@ -240,6 +307,7 @@ def rule_linebreak_uniform(ck, facts):
 
 
 def run(ck, facts, tier):
+    rule_optional_children(ck, facts)
     rule_record_layout(ck, facts)
     rule_children(ck, facts)
     rule_labels(ck, facts)
@@ -256,6 +324,19 @@ def run(ck, facts, tier):
     from . import c13
 
     c13.rule_comment_lexer(ck, facts, tier)
+    # whether a definition is recursive must not depend on how its local binders are spelt
+    from ..rules import exprwalk
+    from ..facts import callee as _callee
+
+    lang_ = facts.crate(roles.LANG)
+    near = set()
+    for g in lang_.fns:
+        if "::mirgen::recursecheck::" in g.path and g.kind == "fn":
+            cvx = cover.coverage(facts, g, roles.EXPR)
+            if cvx is not None and cvx.primary is not None and "LetRec" in cvx.primary_handled():
+                for _, t in g.calls():
+                    near.add(_callee(t) or "")
+    exprwalk.run_gating(ck, facts, "C10.recursion-gating", only=lambda f: f.path in near)
     # layout: what the tokenizer makes of a text must not depend on blanks between tokens
     c13.rule_lexer_model(ck, facts, tier, clauses=("munch", "layout"))
     ck.not_decided("invariance under whitespace, line breaks and redundant parentheses (behaviour of the rest of the chumsky tokenizer and of the parser on concrete texts)")
@@ -280,7 +361,7 @@ def rule_lookahead_nesting(ck, facts):
         cov = cover.coverage(facts, f, TOKENKIND)
         if not cov or cov.primary is None or "Comma" not in cov.primary_handled():
             continue
-        if any((callee(t) or "").split("::")[-1] in ("bump", "expect", "emit_node") for _, t in f.calls()):
+        if _consumes(facts, f):
             continue  # a parsing function, not a pure look-ahead
         inc, dec = set(), set()
         for v in cov.primary_handled():
@@ -387,7 +468,7 @@ def rule_annotation_ambiguity(ck, facts):
     for f in union:
         for _, t in f.calls():
             g = facts.fn(callee(t) or "")
-            if g is not None and g in fns and g.local_ty(0) == "bool" and not any((callee(t2) or "").split("::")[-1] in ("bump", "expect", "emit_node") for _, t2 in g.calls()):
+            if g is not None and g in fns and g.local_ty(0) == "bool" and not _consumes(facts, g):
                 cov = cover.coverage(facts, g, TOKENKIND)
                 if cov and cov.primary is not None:
                     preds.append((g, cov))
